@@ -190,6 +190,11 @@ PROPS = {
             'Kani harnesses: bytes crate verified as compiled (no stubs in these harnesses)',
         ],
         assumptions=[
+            'DEDUCTIVE (Verus): the zero-copy interface Packetizer::{spare_capacity_mut, bytes_written} against a capacity model of '
+            'BytesMut (capacity >= len, reserve, spare_capacity_mut, unsafe set_len): the slice handed out for writing is never '
+            'empty and the buffered bytes and the cached length are untouched -- UNDER the caller protocol that no complete frame '
+            'is waiting (next_message drained first, as the tokio transport does); bytes_written keeps the buffered prefix and the '
+            'invariant, given the unsafe contract (len within the spare capacity). What the written bytes ARE is the caller\'s.',
             'DEDUCTIVE (Verus, all stream lengths, all chunkings): Packetizer::{new, extend_from_slice, next_message} on their '
             'verbatim text against the framing written from the statement (first_frame / frames): next_message hands out exactly '
             'the first complete frame of the buffered bytes and keeps exactly what follows it, or nothing when no frame is '
@@ -200,8 +205,8 @@ PROPS = {
             'byte by byte; a short length prefix',
         ],
         undecided_clauses=[
-            'the zero-copy interface spare_capacity_mut / bytes_written (unsafe, MaybeUninit) beyond the one bounded harness; that '
-            'the real BytesMut behaves like the sequence model (the bounded Kani harnesses exercise it on small streams)',
+            'that the real BytesMut behaves like the sequence / capacity model (the bounded Kani harnesses exercise it on small '
+            'streams); initialisation of the bytes written through the zero-copy interface (the unsafe contract is the caller\'s)',
             'the stream transports TokioTransport / Buffered (Pin-projected poll functions over async I/O objects)',
         ],
         explanation='framing proved for all streams and all ways of cutting them into chunks, on the verbatim Packetizer functions '
